@@ -108,7 +108,9 @@ def UK(e: ast.AST) -> str:
     return U(e)
 
 
-EXTRA_OWNERS = {"io.json.parse_json": ["C12"], "io.json.load_json": ["C12"]}   # "JSON parsing" returns independent objects (C12)
+EXTRA_OWNERS = {"io.json.parse_json": ["C12"], "io.json.load_json": ["C12"],   # "JSON parsing" returns independent objects (C12)
+                # the JSON reader rebuilds histograms through these constructors: what they do with their arguments is part of the round trip
+                "Histogram1D.__init__": ["C08"], "HistogramND.__init__": ["C08"], "HistogramBase.__init__": ["C08"]}
 
 
 def rebinds_of(fi) -> Dict[str, List[str]]:
